@@ -30,6 +30,7 @@ func runC03(p *core.Program, r *core.Report) {
 	c03Directives(p, r, e)
 	c03VisitsAll(p, r, e)
 	c03Retyping(p, r, e)
+	typedPushRule(p, r, e, "R3.7") // every numeric kind a literal can be retyped to is pushed as that kind
 	c03Admission(p, r, e)
 	r.Floor("R3.1", 27+8)
 	r.Floor("R3.3", 3)
